@@ -150,7 +150,7 @@ def run():
     mcprogs = c01.small_programs(3, 6)
     cfg = os.path.join(wd, "mc.cfg")
     with open(cfg, "w") as f:
-        f.write("SPECIFICATION Spec\nCONSTANT MaxCalls = 4\nVIEW hview\nINVARIANT LookAheadIsInvisible\nINVARIANT MessagesOnce\nINVARIANT SwitchAwayAndBack\n"
+        f.write("SPECIFICATION Spec\nCONSTANT MaxCalls = 4\nVIEW hview\nINVARIANT LookAheadIsInvisible\nINVARIANT MessagesOnce\nINVARIANT EvalLeavesTheStoryAlone\nINVARIANT SwitchAwayAndBack\n"
                 "INVARIANT OthersUntouched\nINVARIANT SaveLoadIdentity\nINVARIANT ResetIsInitial\nINVARIANT RefusedIsNoOp\nCHECK_DEADLOCK FALSE\n")
 
     def mc(specdir):
@@ -179,6 +179,8 @@ def run():
         ("InkLook.tla", "an error met while looking ahead is kept (the line before it is lost with the rewind that did not happen)",
          "[m |-> IF e.snap # NoSnap THEN e.snap ELSE m1, snap |-> NoSnap, done |-> TRUE,",
          "[m |-> m1, snap |-> NoSnap, done |-> TRUE,", "MessagesOnce"),
+        ("InkHost.tla", "after a function evaluated by the host the story's output is not put back",
+         "[h EXCEPT !.m = [m EXCEPT !.out = saved.out, !.st = saved.st,", "[h EXCEPT !.m = [m EXCEPT !.st = saved.st,", "EvalLeavesTheStoryAlone"),
         ("InkHost.tla", "reset forgets the named flows' removal", "Reset(h) == Ok([h EXCEPT !.m = S!Start, !.cur = DefaultFlow, !.others = <<>>])",
          "Reset(h) == Ok([h EXCEPT !.m = S!Start, !.cur = DefaultFlow])", "ResetIsInitial"),
     ]:
